@@ -54,6 +54,10 @@ func NewSolver(kind string, timeoutMs int) (*Solver, error) {
 		cmd = exec.Command(kind, "-in", "-smt2")
 	case "cvc5":
 		cmd = exec.Command("cvc5", "--incremental", "--lang=smt2", "--produce-models", fmt.Sprintf("--tlimit-per=%d", timeoutMs))
+	case "cvc5-int":
+		// bit-vectors solved as integers with explicit mod-2^k semantics: decides the
+		// multiply/divide-by-constant kernels (quorum thresholds) that stall bit-blasting
+		cmd = exec.Command("cvc5", "--incremental", "--lang=smt2", "--produce-models", "--solve-bv-as-int=sum", fmt.Sprintf("--tlimit-per=%d", timeoutMs))
 	default:
 		return nil, fmt.Errorf("unknown solver %q", kind)
 	}
@@ -108,7 +112,7 @@ func (s *Solver) Reset() {
 	s.base.Reset()
 	var sb strings.Builder
 	sb.WriteString("(reset)\n")
-	if s.kind != "cvc5" {
+	if !strings.HasPrefix(s.kind, "cvc5") {
 		sb.WriteString("(set-option :produce-models true)\n")
 		fmt.Fprintf(&sb, "(set-option :timeout %d)\n", s.timeoutMs)
 	} else {
